@@ -200,8 +200,9 @@ theorem pyInt_decInt (v : Int) : pyInt false (decInt v) = some v := by
     rw [stripWs_id _ hws]
     simp only [pyNat, Bool.false_eq_true, if_false]
     rw [decNat_eq, digitsGo_natText 8 _ (by omega)]
-    simp only [Option.map_some]
-    congr 1; omega
+    have : -Int.ofNat v.natAbs = v := by
+      rw [Int.ofNat_eq_natCast]; omega
+    simp only [this]
   · rename_i hpos
     rw [pyInt_decNat]
     congr 1; omega
